@@ -61,6 +61,11 @@ HARNESSES = [
          cases=[dict(id="add_file_n%d_m%d" % (n, m), defines={"RD_CASE": 0, "RD_N0": n, "RD_M0": m},
                      tier="quick", timeout=200) for (n, m) in ((0, 0), (1, 1), (2, 2), (1, 2))] + [
                 dict(id="unpack", defines={"RD_CASE": 1}, tier="quick")]),
+    dict(name="rd_restore", file="rd_restore.c",
+         label="bounded(tree = 4 nodes, xattr pairs <= 2)", unwind=5, timeout=600,
+         nochecks=["--conversion-check"],   # "mode & ~S_IFMT": int mask on u16
+         cases=[dict(id="restore", defines={"RS_CASE": 0}, tier="quick"),
+                dict(id="attribs", defines={"RS_CASE": 1}, tier="quick")]),
     dict(name="alloc", file="alloc.c", label="bounded(item size in {1,8,16})", timeout=120,
          cases=[dict(id="item%d" % n, defines={"ITEM": n}, tier="quick") for n in (1, 8, 16)]),
     dict(name="array_ops", file="array_ops.c", label="proved", unwind=66, timeout=600,
@@ -91,7 +96,9 @@ HARNESSES = [
     dict(name="bp_frontend", file="bp_frontend.c", label="proved", fp=_FP_BP,
          loops=["get_new_block"], timeout=600, defines={"BP_BS": 16},
          cases=[dict(id="end_file", defines={"FE_ENQUEUE": 0}, tier="quick"),
-                dict(id="enqueue", defines={"FE_ENQUEUE": 1}, tier="quick")]),
+                dict(id="enqueue", defines={"FE_ENQUEUE": 1}, tier="quick"),
+                dict(id="append", defines={"FE_ENQUEUE": 2}, tier="quick", unwind=9,
+                     label="bounded(append size <= 40, block = 16)")]),
     # cbmc 6.11 attaches no loop contract to a condition-less "for (;;)" (the
     # clauses are silently dropped, caught by the driver's base/step count), so
     # the drain loop of sqfs_block_processor_sync is unwound: backlog <= 4
